@@ -61,6 +61,23 @@ var Rsv1First = wsutil.SendExtensionFunc(func(h ws.Header) (ws.Header, error) {
 
 var buildMu sync.RWMutex
 
+// ArenaIntact: for a writer built over the front part of a larger array (constructor
+// "NewWriterBuffer/spare-cap"), the part of that array behind the buffer it was given belongs
+// to the application (other slices of the same arena live there) and has to keep its 0xCC
+// fill. The arena travels in the destination's Aux field.
+func ArenaIntact(d *env.Dst) (bool, int) {
+	arena, ok := d.Aux.([]byte)
+	if !ok {
+		return true, -1
+	}
+	for i, b := range arena {
+		if b != 0xCC {
+			return false, i
+		}
+	}
+	return true, -1
+}
+
 // Build constructs the writer; ok=false when the constructor panics (buffer too small:
 // documented behaviour, the configuration is skipped).
 func Build(c Cfg, dst io.Writer) (w *wsutil.Writer, ok bool) {
@@ -99,6 +116,9 @@ func Build(c Cfg, dst io.Writer) (w *wsutil.Writer, ok bool) {
 			big[i] = 0xCC
 		}
 		w = wsutil.NewWriterBuffer(dst, st, c.OpCode, big[:c.N])
+		if d, ok := dst.(*env.Dst); ok {
+			d.Aux = big[c.N:]
+		}
 	case "GetWriter":
 		w = wsutil.GetWriter(dst, st, c.OpCode, c.N)
 	default:
@@ -299,6 +319,7 @@ func (s *Session) Apply(o Op) *explore.Fail {
 		}
 		Configure(w, c)
 		obs := s.Obs
+		d.Aux = s.Dst.Aux
 		*s = *NewSession(c, w, d)
 		s.Obs = append(obs, CallObs{Op: o.String(), Size: w.Size()})
 		return nil
@@ -426,6 +447,9 @@ func (s *Session) accept(k int) {
 
 // checkWire parses what reached the destination during this call.
 func (s *Session) checkWire(o Op, callErr error) (*explore.Fail, string) {
+	if ok, at := ArenaIntact(s.Dst); !ok {
+		return explore.Failf("writer-writes-behind-the-buffer-it-was-given", "after %s: byte %d behind the caller's buffer (same array, not part of the slice handed to NewWriterBuffer) changed", o, at), ""
+	}
 	all := s.Dst.Bytes()
 	newBytes := all[s.parsedBytes:]
 	if s.Dst.Failed {
